@@ -724,15 +724,42 @@ static void run_aliasvec(void)
     if (tot == 0.0) {
         return; /* not a distribution */
     }
+    /* the probabilities sum to one up to rounding, or visibly less / more but within the tolerance the library admits
+     * (then the draws above the sum fall to the last outcome that can occur at all) */
+    static const double SCALE[3] = { 1.0, 1.0 - 4e-4, 1.0 + 4e-4 };
+    const int sc = vx_opt_int("offsum", 1) ? vx_choose_free(3, "sum") : 0;
+    h = vx_mix(h, (uint64_t)sc);
     vx_state(h);
     for (unsigned i = 0; i < n; i++) {
-        vec[i] /= tot;
+        vec[i] = vec[i] / tot * SCALE[sc];
     }
+    /* what the library gets is a block of exactly n numbers: a look at pa[n] is a look outside it */
+    double *pv = malloc(n * sizeof *pv);
+    memcpy(pv, vec, n * sizeof *pv);
     char rule[160], desc[120] = "";
     for (unsigned i = 0; i < n; i++) {
         snprintf(desc + strlen(desc), sizeof desc - strlen(desc), "%s%.4g", i ? "," : "", vec[i]);
     }
-    struct cmb_random_alias *al = cmb_random_alias_create(n, vec);
+    if (sc != 0) {
+        /* off-unit sums: loaded dice only (inversion: frequencies are the probabilities, the gap goes to the last outcome) */
+        cmi_verif_sfc64_override = override_fn;
+        for (unsigned k = 0; k <= 1024u && vx_violations_this_exec() == 0; k++) {
+            script[0] = k < 1024u ? ((uint64_t)k << 54) : UINT64_MAX;
+            script[1] = 0;
+            script_n = 2;
+            env_reset();
+            const unsigned id = cmb_random_loaded_dice(n, pv);
+            vx_transition();
+            if (id >= n || pv[id] == 0.0) {
+                snprintf(rule, sizeof rule, "aliasvec:loaded_dice:%s:off-unit-sum", id >= n ? "index-out-of-range" : "zero-probability-outcome-drawn");
+                FAIL(rule, "vector (%s), raw word %#" PRIx64 ": cmb_random_loaded_dice returned %u", desc, script[0], id);
+            }
+        }
+        cmi_verif_sfc64_override = NULL;
+        free(pv);
+        return;
+    }
+    struct cmb_random_alias *al = cmb_random_alias_create(n, pv);
     double P[8] = { 0 };
     for (unsigned k = 0; k < n; k++) {
         const double p = (al->uprob[k] == UINT64_MAX) ? 1.0 : (double)al->uprob[k] / 18446744073709551616.0;
@@ -771,7 +798,7 @@ static void run_aliasvec(void)
             script[0] = wd;
             script[1] = W2[j];
             env_reset();
-            const unsigned id = cmb_random_loaded_dice(n, vec);
+            const unsigned id = cmb_random_loaded_dice(n, pv);
             vx_transitions(2);
             if (ia >= n || id >= n || vec[ia] == 0.0 || vec[id] == 0.0) {
                 const bool a = ia >= n || vec[ia] == 0.0;
@@ -798,6 +825,7 @@ static void run_aliasvec(void)
     vx_outcome(vx_hash_bytes(1, cnt_alias, sizeof cnt_alias));
     cmi_verif_sfc64_override = NULL;
     cmb_random_alias_destroy(al);
+    free(pv);
 }
 
 
